@@ -117,7 +117,7 @@ func RunClose(e *Env) {
 	var cases []CCase
 	strikes := []string{"idle", "enq.registered", "snd.dequeued", "snd.beforeWrite", "awaiting-reply", "rec.backoff"}
 	kinds := []string{"RPC", "QC", "Async", "Corr", "CorrStream", "Uni", "Multi", "Uni-nowait", "Multi-nowait"}
-	for i := 0; i < e.Pick(120, 3000); i++ {
+	for i := 0; i < e.Pick(120, 9000); i++ {
 		c := CCase{Buffer: []uint{0, 1, 4, 64}[rng.Intn(4)], N: 1 + rng.Intn(3), Strike: strikes[rng.Intn(len(strikes))], Closers: []int{1, 1, 2, 8}[rng.Intn(4)], Twice: rng.Intn(3) == 0}
 		for j := 0; j < c.N; j++ {
 			c.States = append(c.States, []string{"connected", "connected", "refused", "server-killed", "down-then-up"}[rng.Intn(5)])
